@@ -466,7 +466,7 @@ fn check(ch: &mut Choices, cx: &mut Ctx) -> R {
     if nt {
         cx.nt();
     }
-    let m = WDwarf { big, units };
+    let m = WDwarf { big, units, dummies: Vec::new() };
     cx.sample_with(|| format!("{} expect {:?}: {}", if big { "BE" } else { "LE" }, expect, m.units.iter().map(|u| format!("[v{} {} addr{} low_pc {:?} ranges {:x?} locs {:x?}]", u.version, if u.format64 { "dwarf64" } else { "dwarf32" }, u.address_size, u.low_pc(), u.ranges, u.locs.iter().map(|l| shapes_dbg(l)).collect::<Vec<_>>())).collect::<Vec<_>>().join(" ")));
     // identifiers: equal lists share one id
     {
@@ -601,7 +601,7 @@ fn check_symbolic(ch: &mut Choices, cx: &mut Ctx) -> R {
         locs.push(l);
         entries.push(WEntry { parent: 0, tag: 0x34, sibling: false, attrs: vec![(0x02, WVal::LocationListRef(i))], reserved_early: false, never_added: false });
     }
-    let m = WDwarf { big, units: vec![WUnit { version, format64: ch.chance(64), address_size: a, entries, ranges, locs, files: None }] };
+    let m = WDwarf { big, units: vec![WUnit { version, format64: ch.chance(64), address_size: a, entries, ranges, locs, files: None }], dummies: Vec::new() };
     let expect = if verdict_ok { Expect::Ok } else { Expect::MustFail(why) };
     cx.sample_with(|| format!("symbolic addresses, {} v{} addr{} low_pc {:x?} ranges {:x?} locs {:?} expect {:?}", if big { "BE" } else { "LE" }, version, a, low_pc, m.units[0].ranges, m.units[0].locs.iter().map(|l| shapes_dbg(l)).collect::<Vec<_>>(), expect));
     if low_pc.is_some() && version < 5 {
